@@ -12,7 +12,7 @@ def _rename(text, suffix):
     return _CONST.sub(lambda m: f"|{m.group(1)}{suffix}|", text)
 
 
-def pair_obligations(eng, short, claims, max_pairs=400):
+def pair_obligations(eng, short, claims, max_pairs=400, converse=None):
     """claims: {name: callable(a, b) -> smt Bool text}, a/b give access to entry values: a('self') -> smt text of the term"""
     paths = eng.return_paths.get(short, [])
     out = []
@@ -42,4 +42,8 @@ def pair_obligations(eng, short, claims, max_pairs=400):
                 consts.setdefault(sort_smt(so), []).append(_rename(nm, "~2"))
             for cname, fn in claims.items():
                 out.append(Obligation(f"{short}/equal-hash-implies[{cname}]", "relational", prelude, pc, fn(a, b), 0, short, "unsat", consts))
+            for cname, fn in (converse or {}).items():
+                # determinism in the named components: equal components => equal result
+                pc2_ = list(pc1) + [_rename(p, "~2") for p in pc2] + [fn(a, b)]
+                out.append(Obligation(f"{short}/equal-inputs-imply-equal-hash[{cname}]", "relational", prelude, pc2_, f"(= {r1.s} {_rename(r2.s, '~2')})", 0, short, "unsat", consts))
     return out
